@@ -104,3 +104,11 @@ CORPUS += [
     Mut('c06-increment-of-the-next-node', TH, '', "                + x[..., node - self.taxa_count : (node - self.taxa_count + 1)]", "                + x[..., node - self.taxa_count + 1 : (node - self.taxa_count + 2)]", mode='text',
         expect=[('C06.S', 'DifferenceNodeHeightTransform._call::')]),
 ]
+CORPUS += [
+    Mut('c06-difference-transform-configured-in-the-constructor-only', TM, '', "            self.transform = DifferenceNodeHeightTransform(self)\n        self._heights = None\n",
+        "            self.transform = DifferenceNodeHeightTransform(self, 0.5)\n        self._heights = None\n", mode='text', expect=[('C06.S', 'ReparameterizedTimeTreeModel.cuda::self.transform-rebuilt-as-configured')]),
+    Mut('c06-concatenated-parameter-swallows-events-while-dirty', 'torchtree/core/parameter.py', '',
+        "    def handle_parameter_changed(self, variable, index, event) -> None:\n        self._need_update = True\n        self.fire_parameter_changed()\n\n    @classmethod\n    def from_json(cls, data, dic):\n        parameters = process_objects(data['parameters'], dic)",
+        "    def handle_parameter_changed(self, variable, index, event) -> None:\n        if not self._need_update:\n            self._need_update = True\n            self.fire_parameter_changed()\n\n    @classmethod\n    def from_json(cls, data, dic):\n        parameters = process_objects(data['parameters'], dic)",
+        mode='text', expect=[('C06.H', 'handlers::torchtree.core.parameter.CatParameter::handle_parameter_changed')]),
+]
